@@ -610,7 +610,15 @@ func (i *uinteger) BitWidth() BitWidth          { return i.t }
 func (i *uinteger) Validate(ctx ValidateCtx, path []string, s string) error {
 	var ui uint64
 	var e error
-	ui, e = strconv.ParseUint(s, 10, int(i.t))
+	// RFC 6020 9.2.1: every integer type allows an optional sign; for an
+	// unsigned type the only value that may carry "-" is zero.
+	digits := s
+	if len(s) > 1 && s[1] >= '0' && s[1] <= '9' {
+		if s[0] == '+' || (s[0] == '-' && strings.Trim(s[1:], "0") == "") {
+			digits = s[1:]
+		}
+	}
+	ui, e = strconv.ParseUint(digits, 10, int(i.t))
 	if e != nil {
 		goto out
 	}
